@@ -31,6 +31,112 @@ UNOP_TAG = {"~": "~", "neg": "-", "pos": "+", "bool": "b", "any": "r|", "all": "
             "as_unsigned": "u", "as_signed": "s"}
 
 
+# ------------------------------------------------------------------------------------------------
+# nested expressions drawn from the operator grammar with a fixed seed: the single-operator templates have signals as
+# operands (the inductive step); these exercise the composition directly -- intermediate values are not normalised
+# signals but whatever the generated code / netlist carries between operators
+
+class _Lcg:
+    def __init__(self, seed):
+        self.x = seed & 0xFFFFFFFF
+
+    def next(self, n):
+        self.x = (1103515245 * self.x + 12345) & 0x7FFFFFFF
+        return (self.x >> 8) % n
+
+    def pick(self, xs):
+        return xs[self.next(len(xs))]
+
+
+def _gen_nested(g):
+    n_sig = 2 + g.next(2)
+    shapes = [(g.pick([1, 2, 2, 3, 3]), g.next(3) == 0) for _ in range(n_sig)]
+    un = list(UNOPS)
+    bn = list(BINOPS)
+
+    def node(depth):
+        k = g.next(20)
+        if depth >= 3 or k < (2 if depth == 0 else 6):
+            if g.next(5) == 0:
+                return ("const", g.pick([0, 1, 2, 5, -1, -3]))
+            return ("sig", g.next(n_sig))
+        if k < 9:
+            return ("un", g.pick(un), node(depth + 1))
+        if k < 15:
+            return ("bin", g.pick(bn), node(depth + 1), node(depth + 1))
+        if k == 15:
+            return ("slice", node(depth + 1), g.next(4), g.next(5))
+        if k == 16:
+            return ("cat", node(depth + 1), node(depth + 1))
+        if k == 17:
+            return ("mux", node(depth + 1), node(depth + 1), node(depth + 1))
+        if k == 18:
+            return ("bsel", node(depth + 1), node(depth + 1), g.next(4))
+        return g.pick([("rot", node(depth + 1), g.next(5) - 2), ("abs", node(depth + 1)), ("shl", node(depth + 1), g.next(3)),
+                       ("match", node(depth + 1), g.next(8))])
+    tree = node(0)
+    while tree[0] in ("sig", "const"):
+        tree = node(0)
+    return shapes, tree
+
+
+def _make_nested(tree, sigs):
+    from amaranth.hdl import Value, Const, Cat, Mux
+
+    def cap(v, n=8):
+        v = Value.cast(v)
+        return v[0:n] if len(v) > n else v
+
+    def mk(t):
+        k = t[0]
+        if k == "sig":
+            return sigs[t[1]]
+        if k == "const":
+            return Const(t[1])
+        if k == "un":
+            a = mk(t[2])
+            if t[1] == "as_signed" and len(a) == 0:
+                return a
+            return cap(UNOPS[t[1]](a))
+        if k == "bin":
+            a, b = mk(t[2]), mk(t[3])
+            if t[1] in ("<<", ">>"):
+                b = Value.cast(b).as_unsigned()[0:2]            # shift amounts are unsigned; keep the result width small
+            if t[1] == "*":
+                a, b = cap(a, 4), cap(b, 4)
+            return cap(BINOPS[t[1]](a, b))
+        if k == "slice":
+            a = Value.cast(mk(t[1]))
+            lo = min(t[2], len(a))
+            hi = min(max(t[3], lo), len(a))
+            return a[lo:hi]
+        if k == "cat":
+            return cap(Cat(mk(t[1]), mk(t[2])))
+        if k == "mux":
+            return cap(Mux(mk(t[1]), mk(t[2]), mk(t[3])))
+        if k == "bsel":
+            off = Value.cast(mk(t[2])).as_unsigned()[0:2]
+            return Value.cast(mk(t[1])).bit_select(off, t[3])
+        if k == "rot":
+            return Value.cast(mk(t[1])).rotate_left(t[2])
+        if k == "abs":
+            return cap(abs(Value.cast(mk(t[1]))))
+        if k == "shl":
+            return cap(Value.cast(mk(t[1])).shift_left(t[2]))
+        if k == "match":
+            a = Value.cast(mk(t[1]))
+            w = len(a)
+            pat = "".join("01-"[(t[2] >> (2 * i)) % 3] for i in range(w))
+            return a.matches(pat, t[2] % 3)
+        raise KeyError(k)
+    return mk(tree)
+
+
+N_NESTED = {"quick": 60, "thorough": 500}
+_g = _Lcg(1092026)
+NESTED = [_gen_nested(_g) for _ in range(N_NESTED["thorough"])]
+
+
 def shapes_upto(W, min_width=0):
     out = []
     for w in range(min_width, W + 1):
@@ -74,6 +180,9 @@ def pyop(op, x, y):
 
 def build(t):
     kind = t[0]
+    if kind == "nested":
+        shapes, tree = NESTED[t[1]]
+        return list(shapes), (lambda *sigs: _make_nested(tree, sigs)), None
     if kind == "unop":
         _, op, sh = t
         return [sh], UNOPS[op], None
